@@ -917,7 +917,7 @@ def run(ck):
          "rule": "programs with absolute references (x86-64 call/jmp/jcc imm, x86-32 call/jmp/jcc imm and [label+disp], x86 absolute memory operands [abs] "
                  "with rel/abs hints, rax/moffs forms and trailing imm8/16/32, AArch64 b/bl/b.cond imm, embed_label, label-delta expressions) plus pairs of "
                  "the same body assembled with the base known at init and relocated to that base afterwards, generated from VERIF_SEED, 1-4 sections, address table last or followed by a section, base assigned at relocation "
-                 "(80 %) or known at init (20 %), bases straddling 2^31/2^32/2^47/2^63/2^64, targets around the rel32 / imm26 limits; 12 % of the x86-64 "
+                 "(80 %) or known at init (20 %), bases straddling 2^31/2^32/2^47/2^63/2^64, targets around the rel32 / imm26 limits; 25 % of the x86-64 "
                  "programs go through JitRuntime::_add at the real mmap address; a program is non-trivial when it contains an absolute reference",
          "samples": samples, "programs": len(programs), "operations": nlines, "distribution": stats,
          "sites_judged_by_evaluator": stats["sites"], "sites_exact": stats["exact"],
